@@ -830,6 +830,110 @@ func c28TieAssoc(c *Ctx, dir string, idxSrc string) {
 }
 
 // ---------------------------------------------------------------------------------------------
+// tie: namerefs.  ents: name -> (kind u s n i a, target); the real expand.Variable.Resolve on a map
+// environment gives name and kind; the same state is built in the interpreter (declare -n …) and
+// `<start>+=(x y)` is run: a panic there is the `default:` branch of assignVal's Kind switch.
+
+type c28NEnt struct {
+	name, kind, target string
+}
+
+func c28TieResolve(c *Ctx, dir string, start string, ents []c28NEnt) {
+	vars := map[string]expand.Variable{}
+	var toks []string
+	var sb strings.Builder
+	for _, e := range ents {
+		switch e.kind {
+		case "n":
+			vars[e.name] = expand.Variable{Set: true, Kind: expand.NameRef, Str: e.target}
+		case "s":
+			vars[e.name] = expand.Variable{Set: true, Kind: expand.String, Str: e.target}
+			sb.WriteString(e.name + "=" + sq(e.target) + "\n")
+		case "i":
+			vars[e.name] = expand.Variable{Set: true, Kind: expand.Indexed, List: []string{"1"}}
+			sb.WriteString(e.name + "=(1)\n")
+		case "a":
+			vars[e.name] = expand.Variable{Set: true, Kind: expand.Associative, Map: map[string]string{"k": "v"}}
+			sb.WriteString("declare -A " + e.name + "=([k]=v)\n")
+		}
+		toks = append(toks, hx(e.name)+":"+e.kind+":"+hx(e.target))
+	}
+	// namerefs last and in one declare, so that no declaration is itself redirected through a
+	// nameref that already exists
+	var refs []string
+	for _, e := range ents {
+		if e.kind == "n" {
+			refs = append(refs, e.name+"="+e.target)
+		}
+	}
+	for i := 0; i < len(refs); i += 40 {
+		j := i + 40
+		if j > len(refs) {
+			j = len(refs)
+		}
+		sb.WriteString("declare -n " + strings.Join(refs[i:j], " ") + "\n")
+	}
+	sb.WriteString(start + "+=(x y)\n")
+	got := ""
+	var kind expand.ValueKind
+	p := safely(func() {
+		name, v := vars[start].Resolve(c28Env{vars})
+		kind = v.Kind
+		ks := map[expand.ValueKind]string{expand.Unknown: "u", expand.String: "s", expand.NameRef: "n", expand.Indexed: "i", expand.Associative: "a", expand.KeepValue: "k"}[v.Kind]
+		got = hx(name) + " " + ks
+	})
+	if p != "" {
+		got = "resolve-panicked"
+	}
+	if kind == expand.NameRef {
+		c.Fail("resolve "+hx(start)+" "+strings.Join(toks, " "),
+			"expand.Variable.Resolve returned a variable whose Kind is still NameRef (the invariant that keeps the `default:` panics of the Kind switches in interp/vars.go unreachable)")
+	}
+	res := c28RunIn(dir, sb.String(), nil)
+	if res.skip {
+		c.Hist["tie-skipped"]++
+		return
+	}
+	if res.panicked != "" {
+		got += " panic"
+	} else {
+		got += " ok"
+	}
+	c.Op(strings.TrimSpace("resolve "+hx(start)+" "+strings.Join(toks, " ")), got)
+}
+
+func c28GenResolve(r *Rand) (string, []c28NEnt) {
+	names := []string{"a", "b", "c", "d", "e"}
+	var ents []c28NEnt
+	if r.Chance(20) { // a long chain n0 -> n1 -> … -> nK (-> itself | a value | nothing)
+		k := []int{98, 99, 100, 101, 150}[r.Intn(5)]
+		for i := 0; i < k; i++ {
+			ents = append(ents, c28NEnt{fmt.Sprintf("n%d", i), "n", fmt.Sprintf("n%d", i+1)})
+		}
+		switch r.Intn(3) {
+		case 0:
+			ents = append(ents, c28NEnt{fmt.Sprintf("n%d", k), "i", ""})
+		case 1:
+			ents = append(ents, c28NEnt{fmt.Sprintf("n%d", k), "n", "n0"})
+		}
+		return "n0", ents
+	}
+	for _, n := range names {
+		switch r.Intn(8) {
+		case 0, 1, 2, 3:
+			ents = append(ents, c28NEnt{n, "n", r.Pick(append(names, "zz"))}) // cycles, self references, dangling
+		case 4:
+			ents = append(ents, c28NEnt{n, "s", "v"})
+		case 5:
+			ents = append(ents, c28NEnt{n, "i", ""})
+		case 6:
+			ents = append(ents, c28NEnt{n, "a", ""})
+		}
+	}
+	return r.Pick(names), ents
+}
+
+// ---------------------------------------------------------------------------------------------
 // generators for the tie streams
 
 var c28ArgPool = []string{
@@ -896,7 +1000,7 @@ func c28OptInt(r *Rand, pool []int) *int {
 
 func c28TieCase(c *Ctx, dir string, i int) {
 	r := c.R
-	switch i % 14 {
+	switch i % 15 {
 	case 0:
 		s := c28Number(r, true)
 		if r.Chance(30) {
@@ -1071,6 +1175,10 @@ func c28TieCase(c *Ctx, dir string, i int) {
 		lhs := r.Pick([]string{"a", "_x1", "ab", "a[1]", "a[i+1]", "b[0]", "x9", "Z", "arr[j]"})
 		c28TieLvalue(c, dir, lhs)
 		c.Case("lvalue/"+lhs, strings.Contains(lhs, "["), "tie:lvalue")
+	case 14:
+		start, ents := c28GenResolve(r)
+		c28TieResolve(c, dir, start, ents)
+		c.Case(fmt.Sprintf("resolve/%s/%v", start, ents), true, "tie:resolve")
 	case 13:
 		idx := r.Pick([]string{"k", "1", "$k", "1+2", "-1", "(1)", "k y", "a b", "i++", "@", "\"x y\""})
 		c28TieAssoc(c, dir, idx)
